@@ -180,7 +180,7 @@ def run_case(case, strict=False):  # pylint: disable=unused-argument
 
 
 num = st.one_of(st.integers(-5, 60), st.sampled_from([0.5, 10.25, 20.75, 1e9, -3.5, 10.1234567, 33.33333333333333, 0.0004, 7.0000001]))
-ids = st.sampled_from(["a", "b", "c", "d", "zz", "a", "b", "", 0])        # (falsy ids are ids too)
+ids = st.sampled_from(["a", "b", "c", "d", "zz", "a", "b", "", 0, "cube <20mm> & 'lid'", "a&amp;b", "7", 7])   # (falsy ids, markup, digits are ids too)
 PAYLOADS = [
     {"name": "a.gcode", "path": "a.gcode", "origin": "local", "size": 1234},
     {"name": "a.gcode", "path": "a.gcode", "origin": "local", "size": 1234},
